@@ -208,9 +208,9 @@ def contracts(tier):
     else:
         det = [(n, f) for n in ("polling", "ping", "reset") for f in (125e6, 250e6, 62.5e6, 10e6, 5e6, 2.5e6, 1e6)] + \
               [("ping", 100e3), ("ping", 1e3), ("reset", 1e3), ("reset", 250.0), ("reset", 100.0)]
-        # (10, 5, 2.5, 0.7 MHz are left out for the generator: there the code's floating-point `ceil(f * 10.0e-6)` is one above
+        # (100, 50, 25, 20, 10, 5, 2.5, 0.7 MHz are left out for the generator: there the code's floating-point `ceil(f * 10.0e-6)` is one above
         #  the exact value -- 100.00000000000001 -> 101 --, an artefact of those scaled frequencies only)
-        gen = [("polling", f) for f in (250e6, 125e6, 62.5e6, 20e6, 4e6, 2e6, 1e6)]
+        gen = [("polling", f) for f in (250e6, 125e6, 62.5e6, 8e6, 4e6, 2e6, 1e6)]
     for n, f in det:
         yield ("LFPSDetector", f"{n}_{f:g}Hz", make_detector(n, f))
     for n, f in gen:
